@@ -20,12 +20,17 @@ def load_impl(ctx):
 
 class UView:
     """position -> Unit of a real Units object whose keys need not be the positions"""
-    def __init__(self, units, keys):
+    def __init__(self, units, keys, ckeys=None):
         self.units = units
         self.keys = list(keys)
+        self.ckeys = list(ckeys) if ckeys is not None else None
 
     def __getitem__(self, pos):
         return self.units[self.keys[pos]]
+
+    def ck(self, c):
+        """candidate key of candidate index c"""
+        return c if self.ckeys is None else self.ckeys[c]
 
 
 def rand_keys(rng, n_units):
@@ -44,21 +49,34 @@ def rand_keys(rng, n_units):
     return [("t", x) for x in rng.sample(range(50), n_units)], "tuples"
 
 
-def make_prov(I, exprs_json, n_units, n_cands=2, keys=None, lazy=False):
+def rand_ckeys(rng, n_cands):
+    """candidate keys per candidate index: positional, reversed (the falsy key 0 is then NOT the first candidate), booleans, strings"""
+    k = rng.random()
+    if k < 0.4:
+        return list(range(n_cands)), "positional"
+    if k < 0.65:
+        return list(range(n_cands - 1, -1, -1)), "reversed"
+    if k < 0.8 and n_cands == 2:
+        return [True, False], "bool-true-first"
+    return ["z", "a", ""][:n_cands] if n_cands <= 3 else ["c%d" % i for i in range(n_cands)], "strings"
+
+
+def make_prov(I, exprs_json, n_units, n_cands=2, keys=None, lazy=False, ckeys=None):
     """real Provenance from JSON expression list (library operators are NOT used here: flat leaves only).
     keys: unit key per position (default = the positions); lazy: units created on first mention instead of up front."""
     import gen
     P = I["provenance"]
+    cands = n_cands if ckeys is None else list(ckeys)
     if keys is None:
         keys = list(range(n_units))
-        raw = P.Units(units=n_units, candidates=n_cands)
+        raw = P.Units(units=n_units, candidates=cands)
     elif lazy:
-        raw = P.Units(candidates=n_cands)
+        raw = P.Units(candidates=cands)
         for k in keys:
             raw[k]
     else:
-        raw = P.Units(units=list(keys), candidates=n_cands)
-    units = UView(raw, keys)
+        raw = P.Units(units=list(keys), candidates=cands)
+    units = UView(raw, keys, ckeys)
     es = [gen.build_expr(P, units, e) for e in exprs_json]
     return P.Provenance(es), units, es
 
